@@ -43,10 +43,24 @@ structure Case where
   dests : String
   calls : List String
   cancelAt : Option Nat
+  /-- "" | "live" | "cancelled": a preliminary Run() of the same Statement on the same DB/TX -/
+  preCtx : String := ""
+  extraSets : Nat := 0
 deriving Repr, Inhabited
 
 def Case.onTx (c : Case) : Bool := c.path.startsWith "tx"
-def Case.cached (c : Case) : Bool := c.path.endsWith "cached"
+/-- cached when the operation proper starts: by the scenario, or because the preliminary
+    run on the DB prepared and cached the statement -/
+def Case.cached (c : Case) : Bool := c.path.endsWith "cached" || (c.path == "db" && c.preCtx == "live")
+
+/-- what the preliminary run returns: the context's error if it was cancelled (ErrTXDone
+    first on the cached path of a finished transaction cannot occur: the TX is still open),
+    otherwise success for a statement without outputs and ErrNoRows for one with outputs
+    (the preliminary script has no rows) -/
+def Case.preReturn (c : Case) : String :=
+  if c.preCtx == "" then "" else
+  if c.preCtx == "cancelled" then "ctx" else
+  if c.hasOutputs then "noRows" else ""
 def Case.ctxDone (c : Case) : Bool := c.ctx == "cancelled-before" || c.ctx == "cancelled-between" || c.ctx == "deadline"
 
 def Case.fetch (c : Case) : List (Except Err Row) :=
@@ -168,6 +182,7 @@ structure Obs where
   outcome : String
   finish : List String
   winners : Nat
+  preReturn : String := ""
 deriving Repr, Inhabited
 
 def isFinisher (e : String) : Bool := e == "commit" || e == "rollback"
@@ -186,7 +201,10 @@ def diffs (c : Case) (p : Pred) (o : Obs) : List (String × String) :=
   (if c.op == "get" && p.stored != o.stored then [("C15", s!"stored: model {p.stored} impl {o.stored}")] else []) ++
   (if c.op == "getall" && p.appended != o.appended then [("C15", s!"appended: model {p.appended} impl {o.appended}")] else []) ++
   (if c.op == "get" && p.outcome != o.outcome then [("C15", s!"outcome: model {p.outcome} impl {o.outcome}")] else []) ++
-  (if !conc && p.finish != o.finish then [("C12", s!"finish: model {p.finish} impl {o.finish}")] else [])
+  (if !conc && p.finish != o.finish then [("C12", s!"finish: model {p.finish} impl {o.finish}")] else []) ++
+  (if c.preReturn != o.preReturn then [("C20", s!"preliminary run: model {c.preReturn} impl {o.preReturn}")] else []) ++
+  -- a disagreement after a cancelled preliminary run also concerns the context property
+  (if c.preCtx == "cancelled" && p.returns != o.returns then [("C20", "returns differ after a cancelled preliminary run")] else [])
 
 /-! ### property predicates on the observation alone -/
 
@@ -247,6 +265,10 @@ def holdsC15 (c : Case) (o : Obs) : Bool :=
 
 /-- C20: a done context runs nothing and is reported; the driver sees the caller's context -/
 def holdsC20 (c : Case) (o : Obs) : Bool :=
+  -- an earlier query's cancelled context must not govern a later query with a live context
+  (if c.preCtx == "cancelled" && !c.ctxDone && c.cancelAt.isNone then
+     o.preReturn == "ctx" && o.returns.all (fun r => r != "ctx" && r != "wrapped(ctx)")
+   else true) &&
   (if c.ctxDone && !(c.onTx && c.txEnd == "before-query") then
      execEvents o == 0 &&
      (if c.op == "iter" then (closeResults c o).all (fun r => r == "ctx" || r == "txDone")
